@@ -2,7 +2,7 @@
 # Run quick checks against a property-PRESERVING change in scratch copies (never touches /repo).
 #   usage: work/eval_benign.sh <verif-commit> <id> <prop> [<prop> ...]
 commit=$1; id=$2; shift 2
-rs=/tmp/rs; vs=/tmp/vs-$commit
+rs=${RS:-/tmp/rs}; vs=/tmp/vs-$commit${VSX:-}
 [ -d $rs ] || git -C /repo worktree add -q --detach $rs HEAD
 if [ ! -d $vs ]; then
     git -C /verif worktree add -q --detach $vs $commit
